@@ -167,13 +167,24 @@ impl<R> Archive<R> {
         let archive_chunks = dictionary
             .chunk_descriptors
             .into_iter()
-            .map(|dict| ChunkDescriptor {
-                checksum: dict.checksum.into(),
-                archive_size: dict.archive_size as usize,
-                archive_offset: chunk_data_offset + dict.archive_offset,
-                source_size: dict.source_size,
+            .map(|dict| {
+                // A chunk is never empty and the location of its data must be representable.
+                let archive_offset = chunk_data_offset
+                    .checked_add(dict.archive_offset)
+                    .filter(|offset| offset.checked_add(u64::from(dict.archive_size)).is_some());
+                match archive_offset {
+                    Some(archive_offset) if dict.archive_size > 0 && dict.source_size > 0 => {
+                        Ok(ChunkDescriptor {
+                            checksum: dict.checksum.into(),
+                            archive_size: dict.archive_size as usize,
+                            archive_offset,
+                            source_size: dict.source_size,
+                        })
+                    }
+                    _ => Err(ArchiveError::invalid_archive("invalid chunk descriptor")),
+                }
             })
-            .collect();
+            .collect::<Result<Vec<ChunkDescriptor>, _>>()?;
         let chunker_params = dictionary
             .chunker_params
             .ok_or_else(|| ArchiveError::invalid_archive("invalid chunker parameters"))?;
@@ -183,6 +194,12 @@ impl<R> Archive<R> {
             .into_iter()
             .map(|v| v as usize)
             .collect();
+        if source_order
+            .iter()
+            .any(|&index| index >= archive_chunks.len())
+        {
+            return Err(ArchiveError::invalid_archive("invalid rebuild order"));
+        }
         Ok(Self {
             reader,
             archive_chunks,
